@@ -54,7 +54,7 @@ def run_case(case, rec):
     i = sas.info(name)
     rng = core.rng_for(case["seed"], PROP, name, case["k"])
     k = case["k"]
-    pars = sas.base_pars(i, case["seed"]*977 + k, style="default" if k == 0 else "random")
+    pars = sas.base_pars(i, case["seed"]*977 + k, style="default" if k == 0 else "wide" if k % 3 == 2 else "random")
     # make rim/shell parameters asymmetric so that swapped arguments show
     pd_on = (k % 2 == 1)
     meshn = 1
